@@ -1094,22 +1094,24 @@ package router
 //@ func newRealm
 //@   partial
 //@   requires broker != nil && dealer != nil && !isnil(logger)
-//@   ensures [realm-or-error] isnil(result1) ==> result0 != nil
+//@   ensures [realm-or-error] isnil(result1) ==> result0 != nil && fresh(result0) && result0.broker == broker && result0.dealer == dealer
 
 //@ func (r *router) addRealm
 //@   on router
 //@   props C11
 //@   requires r != nil && config != nil && r.realms != nil && !isnil(r.log)
 //@   ensures [added-under-its-uri] isnil(result1) ==> result0 != nil && old(config.URI) in r.realms && r.realms[old(config.URI)] == result0
+//@   callsite newRealm : [every-realm-gets-its-own-broker-and-dealer] fresh(arg1) && fresh(arg2)
+//@   ensures [new-realm-object] isnil(result1) ==> fresh(result0)
 
 //@ func newBroker
 //@   partial
-//@   ensures [broker-or-error] isnil(result1) ==> result0 != nil
+//@   ensures [broker-or-error] isnil(result1) ==> result0 != nil && fresh(result0)
 
 //@ func newDealer
 //@   partial
 //@   requires !isnil(logger)
-//@   ensures [dealer] result != nil
+//@   ensures [dealer] result != nil && fresh(result)
 
 // A realm configuration's URI is fixed once the configuration is handed over.
 //@ immutable RealmConfig URI
